@@ -193,11 +193,20 @@ int op_need(cfg_t c, int *r, int *x, int *out_list, int guarded_call) {
 }
 
 /* ---------------------------------------------------------------- meta / hdrinv / fraginv / stripe */
-typedef struct { unsigned char *frag; size_t len; cfg_t c; } frag_a;
+typedef struct { unsigned char *frag; size_t len; cfg_t c; int ro; } frag_a;
 
 static void run_meta(void *va, FILE *out) {
     frag_a *a = va;
-    unsigned char *copy = malloc(a->len); memcpy(copy, a->frag, a->len);
+    unsigned char *copy;
+    if (a->ro) {
+        /* the fragment on read-only pages, ending at an unmapped page: a query neither writes nor overruns */
+        size_t pg = 4096, pages = (a->len + pg - 1) / pg + 1;
+        unsigned char *map = mmap(NULL, (pages + 1) * pg, PROT_READ | PROT_WRITE, MAP_PRIVATE | MAP_ANONYMOUS, -1, 0);
+        copy = map + pages * pg - a->len;
+        memcpy(copy, a->frag, a->len);
+        mprotect(map, pages * pg, PROT_READ); mprotect(map + pages * pg, pg, PROT_NONE);
+        if (g_progress) snprintf(g_progress, 200, "in get_fragment_metadata of a fragment on read-only pages");
+    } else { copy = malloc(a->len); memcpy(copy, a->frag, a->len); }
     fragment_metadata_t md; memset(&md, 0xEE, sizeof md);
     int rc = liberasurecode_get_fragment_metadata((char *)copy, &md);
     if (rc != 0) fprintf(out, "err %d", rc);
@@ -208,10 +217,12 @@ static void run_meta(void *va, FILE *out) {
         fprintf(out, " %u %u %u", md.chksum_mismatch, md.backend_id, md.backend_version);
     }
     if (memcmp(copy, a->frag, a->len)) fprintf(out, " INPUT-MODIFIED");
-    free(copy);
+    if (!a->ro) free(copy);
+    if (a->ro && g_progress) g_progress[0] = 0;
 }
+/* g: 0 in process, 1 in a forked child, 2 in a forked child with the fragment on read-only pages */
 void op_meta(unsigned char *frag, size_t len, int g) {
-    frag_a a = { frag, len };
+    frag_a a = { frag, len, {0}, g == 2 };
     op_begin("meta"); op_hex(frag, len); op_sep();
     if (g) guarded(run_meta, &a); else { run_meta(&a, stdout); res_nl(); }
 }
@@ -387,4 +398,21 @@ void op_enclen(cfg_t c, uint64_t len) {
     (void)cfg_desc(c);
     op_begin("enclen %d %d %d %d %llu", c.be, c.k, c.m, c.hd, (unsigned long long)len); op_sep();
     guarded(run_enclen, &a);
+}
+
+void sweep_neighbours(stripe_t *s, int rec, const char *prop, const char *statkey) {
+    int tol = cfg_tolerance(s->c), n = s->n;
+    for (uint64_t e1 = 1; e1 < (1ull << n); e1++) {
+        int c1 = __builtin_popcountll(e1);
+        if (c1 >= tol) continue;
+        for (int j = 0; j < n; j++) {
+            if ((e1 >> j) & 1) continue;
+            uint64_t e2 = e1 | (1ull << j);
+            sweep_dec(s, e1, 0, 0, 0, prop);
+            sweep_dec(s, e2, 0, 0, 0, prop);
+            if (rec) { sweep_rec(s, e1, __builtin_ctzll(e1), 0, prop); sweep_rec(s, e2, __builtin_ctzll(e1), 0, prop); sweep_rec(s, e2, j, 0, prop); }
+            sweep_dec(s, e1, 0, 0, 0, prop);
+            stat_add(statkey, 1);
+        }
+    }
 }
